@@ -340,6 +340,43 @@ def _history_case(ctx, drv, rng, i, n_sub):
             pass
         if bytes(mb) != mb_before:
             return fail("the model bytes were modified", "model-mutated")
+    if i % 3 == 0:
+        # samples with non-finite values (NaN, +Inf, -Inf) are the caller's too: a throw-away object calibrates / validates on them (so that
+        # the statistics of this history stay clean); whatever it makes of such values, the arrays handed in keep their bytes
+        odd = gm.random_inputs(mb, rng, n=2)
+        planted = False
+        for sig, samples in odd.items():
+            for smp in samples:
+                for name, arr in smp.items():
+                    if isinstance(arr, np.ndarray) and arr.dtype.kind == "f" and arr.size >= 1:
+                        flat = arr.reshape(-1)
+                        for pos, val in zip(rng.sample(range(flat.size), min(3, flat.size)), (np.nan, np.inf, -np.inf)):
+                            flat[pos] = val
+                        planted = True
+        if planted:
+            q3 = quantizer.Quantizer(mb, copy.deepcopy(pl.shipped_recipes()[0][1]))
+            try:
+                pl.apply_recipe(q3, [{"k": "add", "regex": ".*", "operation": "*", "cfg": pl.UNIFORM["a8w8"], "alg": "min_max_uniform_quantize"}])
+            except Exception:  # noqa: BLE001
+                pass
+            for sig, samples in odd.items():
+                d0 = snap(samples)
+                try:
+                    q3.calibrate(samples, signature_key=sig)
+                except Exception:  # noqa: BLE001  (what calibration makes of non-finite data is not C14's business)
+                    pass
+                ctx.tag("calibrate_nonfinite_samples")
+                if snap(samples) != d0:
+                    return fail("calibrate() modified the calibration data (samples containing NaN / Inf)", "calib-data-mutated-nonfinite")
+            if last_result[0] is not None and qs[0]._result.quantized_model is not None:
+                d0 = snap(odd)
+                try:
+                    qs[0].validate(odd)
+                except Exception:  # noqa: BLE001
+                    pass
+                ctx.tag("validate_nonfinite_samples")
+                if snap(odd) != d0:
+                    return fail("validate() modified the test data (samples containing NaN / Inf)", "validate-data-mutated-nonfinite")
     if last is not None and n_sub[0] > 0:
         n_sub[0] -= 1
         for seed in (1, 4242):
